@@ -3,7 +3,7 @@ use ndarray::{Array2, Array3};
 use nimc::alpha::{self, Axis};
 use nimc::fl::{same_bits, vec_exact, Fl};
 use nimc::refm::End;
-use nimc::spl::{bc_configs, k_for};
+use nimc::spl::{bc_configs_coarse as bc_configs, k_for};
 use nimc::subj::{build_bilinear, build_linear, build_spline, call1d, call2d, lanes_matrix, BcSpec};
 use nimc::{catch, main_with, run_jobs, Ctx, JobOut, Json, Meta, Summary};
 
